@@ -17,7 +17,9 @@ Templates == BinT \cup {<<"neg", "a">>, <<"between", "a">>, <<"between", "lo">>,
    <<"if", "cond">>, <<"if", "then">>, <<"if", "else">>, <<"instof", "a">>, <<"path", "a">>,
    <<"filter", "a">>, <<"filter", "f">>, <<"invoke", "f">>, <<"invoke", "arg">>, <<"invoken", "arg">>,
    <<"for", "dom">>, <<"for", "lo">>, <<"for", "hi">>, <<"for", "body">>, <<"some", "dom">>, <<"some", "body">>,
-   <<"every", "dom">>, <<"every", "body">>, <<"fndef", "body">>, <<"list", "item">>, <<"list", "first">>, <<"ctx", "val">>, <<"ctx", "first">>, <<"elist", "item">>}
+   <<"every", "dom">>, <<"every", "body">>, <<"fndef", "body">>, <<"list", "item">>, <<"list", "first">>, <<"ctx", "val">>, <<"ctx", "first">>, <<"elist", "item">>,
+   \* a construct that declares the bound name a locally, followed by a - b read in the outer scope again
+   <<"shadow", "for">>, <<"shadow", "some">>, <<"shadow", "fn">>, <<"shadow", "ctx">>}
 Ladder == BinT \cup {<<"neg", "a">>, <<"between", "a">>, <<"between", "hi">>, <<"instof", "a">>, <<"path", "a">>,
    <<"filter", "a">>, <<"invoke", "f">>}
 
@@ -44,6 +46,12 @@ Fill(tp, h) ==
     [] k = "ctx" -> IF p = "val" THEN [n |-> "ctx", ents |-> <<[key |-> "k1", v |-> h], [key |-> "k2", v |-> Two]>>]
                     ELSE [n |-> "ctx", ents |-> <<[key |-> "k1", v |-> h], [key |-> "k2", v |-> [n |-> "sub", a |-> A, b |-> B]]>>]
     [] k = "elist" -> [n |-> "in", a |-> A, b |-> [n |-> "elist", items |-> <<h, Two>>]]
+    [] k = "shadow" -> [n |-> "list", items |-> <<
+          (CASE p = "for" -> [n |-> "for", its |-> <<[var |-> "a", kind |-> "single", a |-> h]>>, body |-> A]
+             [] p = "some" -> [n |-> "some", its |-> <<[var |-> "a", kind |-> "single", a |-> X]>>, body |-> h]
+             [] p = "fn" -> [n |-> "fndef", ps |-> <<[p |-> "a", ty |-> [t |-> "Any"]]>>, body |-> h]
+             [] p = "ctx" -> [n |-> "ctx", ents |-> <<[key |-> "a", v |-> h], [key |-> "k2", v |-> [n |-> "mul", a |-> A, b |-> B]]>>]),
+          [n |-> "sub", a |-> A, b |-> B], [n |-> "path", a |-> A, id |-> "q"]>>]
 
 \* innermost constructs
 QN(id) == [n |-> "qname", segs |-> <<id>>]
